@@ -105,7 +105,7 @@ Qed.
 
 Lemma src_len sv n m payload : 0 <= n -> src_ok sv n m payload -> zlen payload = n.
 Proof.
-  intros Hn H. unfold src_ok in H. destruct sv as [z| [|] q | | |bs]; try contradiction.
+  intros Hn H. unfold src_ok in H. destruct sv as [z| [|] q | | |bs|cb ci|hh]; try contradiction.
   - destruct H as (Hq & Hb & ->). unfold zlen. rewrite firstn_length, skipn_length. unfold zlen in Hb. lia.
   - subst payload. now apply zlen_repeat.
 Qed.
@@ -118,14 +118,14 @@ Proof.
   intros Hn Hmax Hsrc. cbn [fbody prog_sbdf_str_create_len]. unfold cl. unfold int_max in *.
   pose proof (src_len sv n m payload Hn Hsrc) as Hlen. pose proof (zlen_nonneg m) as Pm.
   assert (Hsv : exists t, truth sv = Some t /\ (t = false -> sv = VNull)).
-  { destruct sv as [z| [|] q | | |bs]; try contradiction; [exists true|exists false]; split; try reflexivity; discriminate. }
+  { destruct sv as [z| [|] q | | |bs|cb ci|hh]; try contradiction; [exists true|exists false]; split; try reflexivity; discriminate. }
   pose proof (allocate_array_bs (1 + n) VUndef bv k m o ltac:(lia) ltac:(unfold int_max; lia)) as AL.
   eapply bsE_seq; [eapply bsE_decl0; evh; reflexivity|].
   eapply bsE_seq.
-  { eapply bsE_if; [destruct sv as [z| [|] q | | |bs]; try contradiction; evh; chk7; evh; replace (n <? 0) with false by lia; evh; chk7; evh; replace (n =? 2147483647) with false by lia; reflexivity|reflexivity|apply bsE_skip]. }
+  { eapply bsE_if; [destruct sv as [z| [|] q | | |bs|cb ci|hh]; try contradiction; evh; chk7; evh; replace (n <? 0) with false by lia; evh; chk7; evh; replace (n =? 2147483647) with false by lia; reflexivity|reflexivity|apply bsE_skip]. }
   destruct (k =? 0) eqn:Ek.
   - eapply bsE_seq.
-    + eapply bsE_call; [reflexivity|destruct sv as [z| [|] q | | |bs]; try contradiction; evch; chk7; evch; chk7; reflexivity|reflexivity|exact AL|unfold aa; destruct sv as [z| [|] q | | |bs]; try contradiction; evch; reflexivity].
+    + eapply bsE_call; [reflexivity|destruct sv as [z| [|] q | | |bs|cb ci|hh]; try contradiction; evch; chk7; evch; chk7; reflexivity|reflexivity|exact AL|unfold aa; destruct sv as [z| [|] q | | |bs|cb ci|hh]; try contradiction; evch; reflexivity].
     + eapply bsE_seq; [eapply bsE_if; [evh; reflexivity|reflexivity|apply bsE_skip]|]. eapply bsE_return. evh. reflexivity.
   - (* the block is there: header written by sbdf_allocate_array, now the terminator and the bytes *)
     set (pfx := m ++ le32 (1 + n)).
@@ -141,8 +141,8 @@ Proof.
       - apply (upd_nth_at (pfx ++ repeat junk (Z.to_nat n)) junk [] v).
       - rewrite app_length, repeat_length. unfold zlen in *. lia. }
     eapply bsE_seq.
-    + eapply bsE_call; [reflexivity|destruct sv as [z| [|] q | | |bs]; try contradiction; evch; chk7; evch; chk7; reflexivity|reflexivity|exact AL|unfold aa; destruct sv as [z| [|] q | | |bs]; try contradiction; evch; reflexivity].
-    + destruct sv as [z| [|] q | | |bs]; try contradiction.
+    + eapply bsE_call; [reflexivity|destruct sv as [z| [|] q | | |bs|cb ci|hh]; try contradiction; evch; chk7; evch; chk7; reflexivity|reflexivity|exact AL|unfold aa; destruct sv as [z| [|] q | | |bs|cb ci|hh]; try contradiction; evch; reflexivity].
+    + destruct sv as [z| [|] q | | |bs|cb ci|hh]; try contradiction.
       * (* a source: copy it *)
         destruct Hsrc as (Hq & Hb & Hp).
         eapply bsE_seq.
@@ -285,16 +285,16 @@ Proof.
   pose proof (allocate_array_bs n VUndef bv k m o Hn ltac:(unfold int_max; lia)) as AL.
   destruct (k =? 0) eqn:Ek.
   - eexists. eapply bsE_seq.
-    + eapply bsE_seq; [eapply bsE_call; [reflexivity|destruct sv as [z| [|] q | | |bs]; try contradiction; evch; reflexivity|reflexivity|exact AL|unfold aa; destruct sv as [z| [|] q | | |bs]; try contradiction; evch; reflexivity]|].
+    + eapply bsE_seq; [eapply bsE_call; [reflexivity|destruct sv as [z| [|] q | | |bs|cb ci|hh]; try contradiction; evch; reflexivity|reflexivity|exact AL|unfold aa; destruct sv as [z| [|] q | | |bs|cb ci|hh]; try contradiction; evch; reflexivity]|].
       eapply bsE_decl1; [evh; reflexivity|evh; reflexivity].
     + eapply bsE_seq; [eapply bsE_if; [evh; reflexivity|reflexivity|apply bsE_skip]|]. eapply bsE_return. evh. reflexivity.
   - eexists. set (pfx := m ++ le32 n).
     assert (Hpfx : zlen pfx = zlen m + 4) by (unfold pfx; rewrite zlen_app; reflexivity).
     assert (Hmem : ba_mem m payload [] = pfx ++ payload ++ []) by (unfold ba_mem, pfx; rewrite Hlen, <- !app_assoc; reflexivity).
     eapply bsE_seq.
-    + eapply bsE_seq; [eapply bsE_call; [reflexivity|destruct sv as [z| [|] q | | |bs]; try contradiction; evch; reflexivity|reflexivity|exact AL|unfold aa; destruct sv as [z| [|] q | | |bs]; try contradiction; evch; reflexivity]|].
+    + eapply bsE_seq; [eapply bsE_call; [reflexivity|destruct sv as [z| [|] q | | |bs|cb ci|hh]; try contradiction; evch; reflexivity|reflexivity|exact AL|unfold aa; destruct sv as [z| [|] q | | |bs|cb ci|hh]; try contradiction; evch; reflexivity]|].
       eapply bsE_decl1; [evh; reflexivity|evh; reflexivity].
-    + destruct sv as [z| [|] q | | |bs]; try contradiction.
+    + destruct sv as [z| [|] q | | |bs|cb ci|hh]; try contradiction.
       * destruct Hsrc as (Hq & Hb & Hp).
         eapply bsE_seq.
         -- eapply bsE_if; [evh; reflexivity|reflexivity|]. eapply bsE_expr. evh. replace (0 <=? n) with true by lia. evh.
